@@ -77,7 +77,7 @@ var _ RawRegister64 = ParseTXTDeviceID(0)
 
 // ReadTXTDeviceIDRegister reads a txt error status register from TXT config
 func ReadTXTDeviceIDRegister(data TXTConfigSpace) (TXTDeviceID, error) {
-	buf := bytes.NewReader(data[TXTDeviceIDRegisterOffset:])
+	buf := bytes.NewReader(data.from(TXTDeviceIDRegisterOffset))
 	var u64 uint64
 	if err := binary.Read(buf, binary.LittleEndian, &u64); err != nil {
 		return 0, err
